@@ -124,6 +124,9 @@ THEOREM_FUNCS = {
     "C10_read_from_source_over_socket": _RD,
     "C10_recv_from_source": ["socket_wrapper.py:SocketWrapper._recv"],
     "C10_sock_read_from_source": ["socket_wrapper.py:SocketWrapper._recv", "socket_wrapper.py:SocketWrapper.read"],
+    "C10_sock_readline_from_source": ["socket_wrapper.py:SocketWrapper._recv", "socket_wrapper.py:SocketWrapper.read",
+                                      "socket_wrapper.py:SocketWrapper.readline"],
+    "C10_rl_opt_is_model": [],
 }
 
 
